@@ -2,6 +2,7 @@ package harness
 
 import (
 	"bytes"
+	"context"
 	"fmt"
 	aelog "github.com/godaddy/asherah/go/appencryption/pkg/log"
 	"strings"
@@ -28,6 +29,7 @@ type fScenario struct {
 	spec PolicySpec
 	prep string // cold | warm | rotating | revokedIK | revokedSK | skOnly | stale
 	op   string // enc | dec
+	sfx  string // region suffix reported by the metastore ("" = plain key ids)
 }
 
 type fFaults struct{ ms, kms, aead, alloc bool }
@@ -68,6 +70,7 @@ func (fw *fWorld) logLeak(c *explore.Ctx, what string) {
 
 func (sc fScenario) setup() *fWorld {
 	fw := &fWorld{w: NewWorld()}
+	fw.w.MS.Suffix = sc.sfx
 	aelog.SetLogger(fLogger{fw})
 	fw.f = fw.w.NewFactory(sc.spec)
 	mustEnc := func(s *ae.Session, pl []byte) *ae.DataRowRecord {
@@ -99,21 +102,21 @@ func (sc fScenario) setup() *fWorld {
 		vclock.Advance((E + 1) * time.Second)
 	case "revokedIK":
 		fw.rec = mustEnc(fw.s, fw.pay)
-		fw.w.MS.Revoke(ref.IntermediateKeyID("A", "s", "p", ""), fw.rec.Key.ParentKeyMeta.Created)
+		fw.w.MS.Revoke(ref.IntermediateKeyID("A", "s", "p", sc.sfx), fw.rec.Key.ParentKeyMeta.Created)
 		vclock.Advance((R + 1) * time.Second)
 	case "revokedSK":
 		fw.rec = mustEnc(fw.s, fw.pay)
-		fw.w.MS.Revoke(ref.SystemKeyID("s", "p", ""), fw.w.MS.Latest(ref.SystemKeyID("s", "p", "")).Created)
+		fw.w.MS.Revoke(ref.SystemKeyID("s", "p", sc.sfx), fw.w.MS.Latest(ref.SystemKeyID("s", "p", sc.sfx)).Created)
 		vclock.Advance((2*R + 1) * time.Second)
 	case "revokedIKsameMinute":
 		// the revoked key cannot be replaced yet: a new key would get the same (id, created) and the insert is a genuine duplicate
 		fw.rec = mustEnc(fw.s, fw.pay)
-		fw.w.MS.Revoke(ref.IntermediateKeyID("A", "s", "p", ""), fw.rec.Key.ParentKeyMeta.Created)
+		fw.w.MS.Revoke(ref.IntermediateKeyID("A", "s", "p", sc.sfx), fw.rec.Key.ParentKeyMeta.Created)
 		fw.s.Close()
 		fw.s, _ = fw.f.GetSession("A")
 	case "revokedSKsameMinute":
 		fw.rec = mustEnc(fw.s, fw.pay)
-		fw.w.MS.Revoke(ref.SystemKeyID("s", "p", ""), fw.w.MS.Latest(ref.SystemKeyID("s", "p", "")).Created)
+		fw.w.MS.Revoke(ref.SystemKeyID("s", "p", sc.sfx), fw.w.MS.Latest(ref.SystemKeyID("s", "p", sc.sfx)).Created)
 		fw.s.Close()
 		fw.f.Close()
 		fw.f = fw.w.NewFactory(sc.spec)
@@ -271,13 +274,20 @@ func (sc fScenario) body(ff fFaults) explore.Body {
 			var out []byte
 			var err error
 			pay := append([]byte(nil), fw.pay...)
+			// the caller's context may be cancelled while any metastore / KMS call of the faulted round is in flight
+			octx, cancel := context.WithCancel(ctx)
+			if round == 0 && (ff.ms || ff.kms) {
+				fw.w.MS.Cancel, fw.w.KMS.Cancel = cancel, cancel
+			}
 			pan := safe(func() {
 				if sc.op == "enc" {
-					rec, err = fw.s.Encrypt(ctx, pay)
+					rec, err = fw.s.Encrypt(octx, pay)
 				} else {
-					out, err = fw.s.Decrypt(ctx, *cloneDRR(fw.rec))
+					out, err = fw.s.Decrypt(octx, *cloneDRR(fw.rec))
 				}
 			})
+			fw.w.MS.Cancel, fw.w.KMS.Cancel = nil, nil
+			cancel()
 			fw.setFaults(false, ff)
 			if pan != "" {
 				c.Failf("C02:panic", "%s panicked: %s", what, pan)
@@ -296,9 +306,11 @@ func (sc fScenario) body(ff fFaults) explore.Body {
 				if sc.op == "enc" {
 					fw.durable(c, what, rec, fw.pay)
 				} else if !bytes.Equal(out, fw.pay) {
+					c.Failf("C01:dec-wrong-bytes", "%s returned %q", what, out)
 					c.Failf("C02:dec-wrong-bytes", "%s returned %q", what, out)
 				}
 			} else if round == 1 {
+				c.Failf("C01:fails-after-faults-stopped", "%s: with all faults stopped the operation still fails (a record that was handed out must decrypt at any later time): %v (calls: %s)", what, err, fw.callTrail())
 				c.Failf("C02:no-recovery", "%s: with all faults stopped the next operation still fails: %v (calls: %s)", what, err, fw.callTrail())
 			}
 			// C03: the envelope discipline holds on every path that hands out a record, also after faults
@@ -374,6 +386,19 @@ func fScenarios(thorough bool) []fScenario {
 			out = append(out, fScenario{name: sp.Name + "/" + prep, spec: sp, prep: prep, op: "dec"})
 		}
 	}
+	// region-suffixed key ids (a metastore that reports a region suffix)
+	sfxSpecs := []PolicySpec{SpecDefault}
+	if thorough {
+		sfxSpecs = []PolicySpec{SpecDefault, SpecNoCache, SpecShared("lru", 1)}
+	}
+	for _, sp := range sfxSpecs {
+		for _, prep := range []string{"cold", "rotating", "revokedSK", "skOnly"} {
+			out = append(out, fScenario{name: sp.Name + "+suffix/" + prep, spec: sp, prep: prep, op: "enc", sfx: "us-west-2"})
+		}
+		for _, prep := range []string{"cold", "stale"} {
+			out = append(out, fScenario{name: sp.Name + "+suffix/" + prep, spec: sp, prep: prep, op: "dec", sfx: "us-west-2"})
+		}
+	}
 	return out
 }
 
@@ -381,7 +406,7 @@ func fScenarios(thorough bool) []fScenario {
 func CheckF(prop string, ff fFaults) func(r *Report) {
 	return func(r *Report) {
 		r.Level = "fault_enumeration"
-		r.Rule = "one encrypt (or decrypt) from each prepared start state (cold, warm, rotating, revoked IK, revoked SK, SK-only, stale) with every placement of up to D non-default answers over the metastore (error / false duplicate / error-after-write), KMS, AEAD and secret-allocator calls it makes, followed by the same operation with faults stopped and a full close; non-trivial = executions in which at least one fault was injected"
+		r.Rule = "one encrypt (or decrypt) from each prepared start state (cold, warm, rotating, revoked IK, revoked SK, SK-only, stale) with every placement of up to D non-default answers over the metastore (error / false duplicate / error-after-write / caller's context cancelled during the call), KMS (error / context cancelled), AEAD and secret-allocator calls it makes, followed by the same operation with faults stopped and a full close; non-trivial = executions in which at least one fault was injected"
 		for _, sc := range fScenarios(r.Thorough()) {
 			if prop == "C02" && sc.op != "enc" {
 				continue
